@@ -573,10 +573,7 @@ func (c *Ctx) ruleLifecycleHelpers(rule string) {
 			if !ok || fieldOf(fa).Name() != "rulebuilder" {
 				return
 			}
-			isGw := func(v ssa.Value) bool {
-				ex, ok := x.Origin(v).(*ssa.Extract)
-				return ok && ex.Tuple == ssa.Value(get) && ex.Index == 0
-			}
+			isGw := func(v ssa.Value) bool { return x.resultOf(v, get, 0) }
 			if !isGw(fa.X) {
 				return
 			}
@@ -599,11 +596,13 @@ func (c *Ctx) ruleLifecycleHelpers(rule string) {
 		// a return with an error (or without the wrapper) after the acquisition would lose the engine,
 		// since the callers install the hand-back only after prepare* succeeded
 		if get != nil {
-			nilErr, _ := x.nilEdges(f, func(v ssa.Value) bool {
-				ex, ok := x.Origin(v).(*ssa.Extract)
-				return ok && ex.Tuple == ssa.Value(get) && ex.Index == 1
-			})
+			nilErr, _ := x.nilEdges(f, func(v ssa.Value) bool { return x.resultOf(v, get, 1) })
 			okKeep := len(nilErr) > 0
+			// a getGengine that has no error result always succeeds: everything after the call holds the instance
+			_, hasErr := get.Type().(*types.Tuple)
+			if !hasErr {
+				okKeep = true
+			}
 			var lostAt token.Pos
 			eachInstr(f, func(in ssa.Instruction) {
 				r, ok := in.(*ssa.Return)
@@ -617,6 +616,9 @@ func (c *Ctx) ruleLifecycleHelpers(rule string) {
 						after = true
 					}
 				}
+				if !hasErr {
+					_, after = pathExists(f, get, func(i2 ssa.Instruction) bool { return i2 == in }, nil)
+				}
 				if !after {
 					return
 				}
@@ -626,8 +628,7 @@ func (c *Ctx) ruleLifecycleHelpers(rule string) {
 					}
 				}
 				for _, pv := range x.PossibleValues(r.Results[0]) {
-					ex, isEx := pv.V.(*ssa.Extract)
-					if pv.V == nil || !isEx || ex.Tuple != ssa.Value(get) || ex.Index != 0 {
+					if pv.V == nil || !x.resultOf(pv.V, get, 0) {
 						okKeep, lostAt = false, r.Pos()
 					}
 				}
@@ -654,8 +655,7 @@ func (c *Ctx) ruleLifecycleHelpers(rule string) {
 					okAdd = false
 					return
 				}
-				ex, isEx := x.Origin(b2).(*ssa.Extract)
-				if !isEx || ex.Tuple != ssa.Value(get) {
+				if get == nil || !x.resultOf(b2, get, 0) {
 					okAdd = false
 				}
 			}
@@ -665,6 +665,18 @@ func (c *Ctx) ruleLifecycleHelpers(rule string) {
 }
 
 // ---- free lists: getGengine / putGengineLocked / NewGenginePool -------------------
+
+// resultOf: v is result #i of the call (a tuple's extract, or the call itself when it has one result).
+func (x *FnIndex) resultOf(v ssa.Value, call *ssa.Call, i int) bool {
+	o := x.Origin(v)
+	if ex, ok := o.(*ssa.Extract); ok {
+		return ex.Tuple == ssa.Value(call) && ex.Index == i
+	}
+	if _, isTuple := call.Type().(*types.Tuple); !isTuple && i == 0 {
+		return o == ssa.Value(call)
+	}
+	return false
+}
 
 func (c *Ctx) ruleFreeLists(rule string) {
 	get := c.MustFn(rule, "engine", "GenginePool", "getGengine")
@@ -683,9 +695,15 @@ func (c *Ctx) ruleFreeLists(rule string) {
 			c.Check(rule, key+"/locks-released", len(held) == 0, r.Pos(), "getGengine can return with locks held: %v", heldNames(held))
 			okVal := true
 			why := ""
-			for _, pv := range x.PossibleValues(r.Results[1]) {
-				if pv.V != nil && !isConstNil(pv.V) {
-					okVal, why = false, "returns a non-nil error: callers must wait, not fail"
+			if len(r.Results) == 0 {
+				c.Check(rule, key, false, r.Pos(), "getGengine returns nothing")
+				return
+			}
+			if len(r.Results) > 1 {
+				for _, pv := range x.PossibleValues(r.Results[1]) {
+					if pv.V != nil && !isConstNil(pv.V) {
+						okVal, why = false, "returns a non-nil error: callers must wait, not fail"
+					}
 				}
 			}
 			for _, pv := range x.ValuesAt(r.Results[0], r) {
